@@ -209,6 +209,21 @@ def check_product(wts, pos, values, level):
     if r is not c2:
         p.add('update_returns_self', '%s.update(params) did not return the measure itself' % desc)
     p.same('update(full)', obs(c2), expected_obs(w2, x2), '%s.update(%r)' % (desc, P2))
+    # a measure built from another one, or from one factor object used several times, shares its factor objects:
+    # update() must still change exactly the addressed slots of the measure it is called on, and nothing else
+    c0 = md.compose(pos, wts)
+    c2 = md.product_measure(c0)
+    c2.update(P2)
+    p.calls += 1
+    p.same('update(copy-constructed)', obs(c2), expected_obs(w2, x2), 'product_measure(c).update(%r) for c = %s' % (P2, desc))
+    p.same('update(copy-constructed) leaves the source alone', obs(c0), want, 'c after product_measure(c).update(%r) for c = %s' % (P2, desc))
+    if len(pts) >= 2 and all(k == pts[0] for k in pts):
+        m = md.compose([pos[0]], [wts[0]])[0]
+        c2 = md.product_measure([m] * len(pts))
+        c2.update(P2)
+        p.calls += 1
+        p.same('update(shared factor object)', obs(c2), expected_obs(w2, x2),
+               'product_measure([m]*%d).update(%r) with m the single factor (%r, %r)' % (len(pts), P2, pos[0], wts[0]))
     c2 = md.compose(pos, wts); c2.update(list(P2) + [9.0])
     p.same('update(full+extra)', obs(c2), expected_obs(w2, x2), '%s.update(%r) (trailing values are documented to be ignored)' % (desc, P2 + [9.0]))
     for k in range(len(pts)):                      # whole-factor prefixes
